@@ -818,7 +818,20 @@ class Interp:
         raise OutsideSubset("starred expression outside call/display")
 
     def e_ListComp(self, node, env):
+        spec = self.world.loopspecs.get(id(node)) if self.world.loopspecs else None
+        if spec is not None and (self._in_body_mode(env) or self._symbolic_iterable(node.generators[0], env)):
+            from .loopcut import cut_comprehension
+
+            return cut_comprehension(self, node, env, spec)
         return ListV(self.comp_values(node.elt, node.generators, env))
+
+    def _in_body_mode(self, env):
+        e = env
+        while e is not None:
+            if e.func is not None and not e.is_class and isinstance(e.func, FuncV) and not e.func.is_lambda:
+                return id(e.func) in self.body_mode
+            e = e.parent
+        return False
 
     def e_SetComp(self, node, env):
         s = SetV()
